@@ -100,19 +100,30 @@ def strip_comments(src: str) -> str:
 def lake_build(clean: bool = False, prop: str | None = None) -> tuple[bool, str]:
     if clean:
         subprocess.run(["lake", "clean"], cwd=LEAN, capture_output=True, text=True)
-    targets = ["Physt", "physt_driver"] + ([f"Physt.Theorems.{prop}"] if prop else [])
+    targets = ["Physt", "physt_driver"] + (theorem_modules(prop) if prop else [])
     p = subprocess.run(["lake", "build"] + targets, cwd=LEAN, capture_output=True, text=True)
     return p.returncode == 0, (p.stdout + p.stderr)[-4000:]
 
 
+def theorem_files(prop: str) -> list[Path]:
+    """Theorems/Cxx.lean plus its continuation files Theorems/Cxx_*.lean"""
+    d = LEAN / "Physt" / "Theorems"
+    return [d / f"{prop}.lean"] + sorted(d.glob(f"{prop}_*.lean"))
+
+
+def theorem_modules(prop: str) -> list[str]:
+    return [f"Physt.Theorems.{p.stem}" for p in theorem_files(prop)]
+
+
 def theorem_names(prop: str) -> list[str]:
-    src = strip_comments((LEAN / "Physt" / "Theorems" / f"{prop}.lean").read_text())
-    return re.findall(r"^theorem\s+([A-Za-z0-9_'.]+)", src, flags=re.M)
+    out = []
+    for f in theorem_files(prop):
+        out += re.findall(r"^theorem\s+([A-Za-z0-9_'.]+)", strip_comments(f.read_text()), flags=re.M)
+    return out
 
 
 def example_count(prop: str) -> int:
-    src = strip_comments((LEAN / "Physt" / "Theorems" / f"{prop}.lean").read_text())
-    return len(re.findall(r"^example\b", src, flags=re.M))
+    return sum(len(re.findall(r"^example\b", strip_comments(f.read_text()), flags=re.M)) for f in theorem_files(prop))
 
 
 def audit(prop: str, tier: str) -> dict:
@@ -143,7 +154,7 @@ def audit(prop: str, tier: str) -> dict:
         res.update(json.loads(cache.read_text()))
         return res
     tmp = LEAN / ".lake" / f"Audit_{prop}.lean"
-    tmp.write_text(f"import Physt.Theorems.{prop}\nopen Physt\n" + "".join(f"#print axioms {n}\n" for n in names))
+    tmp.write_text("".join(f"import {m}\n" for m in theorem_modules(prop)) + "open Physt\n" + "".join(f"#print axioms {n}\n" for n in names))
     p = subprocess.run(["lake", "env", "lean", str(tmp)], cwd=LEAN, capture_output=True, text=True)
     out = p.stdout + p.stderr
     if p.returncode != 0:
@@ -168,7 +179,7 @@ def audit(prop: str, tier: str) -> dict:
 
 
 def leanchecker(prop: str) -> tuple[bool, str]:
-    p = subprocess.run(["lake", "env", "leanchecker", f"Physt.Theorems.{prop}"], cwd=LEAN,
+    p = subprocess.run(["lake", "env", "leanchecker"] + theorem_modules(prop), cwd=LEAN,
                        capture_output=True, text=True)
     return p.returncode == 0, (p.stdout + p.stderr)[-2000:]
 
